@@ -372,6 +372,8 @@ func (m *Model) eval(n *N, env *MEnv) res {
 		return norm(Val{T: "str", S: n.Str})
 	case KErrNew:
 		return raise(&MErr{n.Str, n.Msg})
+	case KNat:
+		return raise(&MErr{n.Str, n.Msg})
 	case KVar:
 		v, ok := env.get(n.Str)
 		if !ok {
